@@ -18,6 +18,7 @@ type SV struct {
 }
 
 type SpecEnv struct {
+	addrOnly bool // translating the argument of addr(): embedded structs are allowed
 	cur   map[string]string // heaps of the enclosing (post) state while inside old(...); used by now(...)
 	g     *Gen
 	st    *State            // state receiving nothing; used for heap lookups through shadow
@@ -551,7 +552,9 @@ func (e *SpecEnv) call(x *Expr) SV {
 		return SV{V: BoolV(present), T: tBool}
 	case "addr":
 		// addr(e.f): flat address of a location
-		l := e.loc(x.Args[0])
+		ae := *e
+		ae.addrOnly = true
+		l := ae.loc(x.Args[0])
 		if l.Addr == "" {
 			specFail("addr(): location has no flat address")
 		}
@@ -686,6 +689,9 @@ func (e *SpecEnv) loc(x *Expr) *Loc {
 				fa := sh.fieldAddr(curT, cs, idx, cur)
 				if fa.K == KLoc {
 					return fa.Loc
+				}
+				if e.addrOnly && fa.K == KInt {
+					return &Loc{Heap: "$embedded", Idx: fa.T, Addr: fa.T, Typ: f.Type()}
 				}
 				specFail("location %s is an embedded struct; name its fields", x.String())
 			}
